@@ -1236,3 +1236,15 @@ Theorem C01_ties_proof o k : classes_nonempty o ->
 Proof.
   intros H. split; [now rewrite remove_ws_order_str|]. split; [now apply order_roundtrip|now apply ballot_line_roundtrip].
 Qed.
+
+(* ================================================================================================ *)
+(* 19. for the entry-point / autocorrect packages (C10, C16): the ballot loop only sees the lines   *)
+(*     with all whitespace removed                                                                  *)
+(* ================================================================================================ *)
+Lemma ballot_loop_ws au : forall ls ls' st,
+  map remove_ws ls = map remove_ws ls' -> ballot_loop au st ls = ballot_loop au st ls'.
+Proof.
+  induction ls as [|l r IH]; intros [|l' r'] st E; try discriminate; [reflexivity|].
+  cbn [map] in E. injection E as E1 E2. cbn [ballot_loop]. rewrite E1.
+  destruct (remove_ws l'); [now apply IH|]. destruct (parse_ballot _); [|reflexivity]. cbn [rbind]. now apply IH.
+Qed.
